@@ -10,7 +10,7 @@ from sa.flow import backward_slice, defs_reaching, reaching_defs
 from sa.model import contains, enclosing
 from sa.variants import Variant, replace_once, sub_first, sub_once
 
-from .common import call_names, template_methods
+from .common import call_names, template_methods, vars_from_call
 
 ID = "C10"
 EXPLANATION = (
@@ -145,18 +145,32 @@ def run(ctx) -> None:
             # the unbounded list is filled by iterating the gather result
         rep.add("C10.R2", f"{amap.qname}:returned-results", okr, amap.loc(), "returned list is either the index-sorted list or the list filled from the gather result" if okr else "map returns a list that is neither index-sorted nor built from the gather result in order")
         # unbounded branch: tasks by iterating variations; gathered iterated directly
-        gath = [c for c in db.calls_in(amap) if dotted(c.func) == "asyncio.gather" and any(isinstance(a, ast.Starred) and isinstance(a.value, ast.Name) and a.value.id == "tasks" for a in c.args)]
+        var_names = set(vars_from_call(db, amap, {"generate_map_inputs", "list"}))
+        var_names = {v for v in var_names if any(isinstance(d, ast.Assign) and "generate_map_inputs" in src(d.value) for d in db.local_defs(amap).get(v, []))}
         oku = False
-        if gath:
-            tdefs = [d for d in db.local_defs(amap).get("tasks", []) if isinstance(d, ast.Assign)]
-            oku = len(tdefs) == 1 and isinstance(tdefs[0].value, ast.ListComp) and isinstance(tdefs[0].value.generators[0].iter, ast.Name) and tdefs[0].value.generators[0].iter.id == "input_variations" and not tdefs[0].value.generators[0].ifs
-            loops = [n for n in walk_local(amap.node) if isinstance(n, ast.For) and isinstance(n.iter, ast.Name) and n.iter.id == "gathered"]
-            oku = oku and len(loops) == 1 and any(isinstance(c, ast.Call) and isinstance(c.func, ast.Attribute) and c.func.attr == "append" for c in ast.walk(loops[0]))
+        for c in db.calls_in(amap):
+            if dotted(c.func) != "asyncio.gather":
+                continue
+            stars = [a.value.id for a in c.args if isinstance(a, ast.Starred) and isinstance(a.value, ast.Name)]
+            if len(stars) != 1:
+                continue
+            tdefs = [d for d in db.local_defs(amap).get(stars[0], []) if isinstance(d, ast.Assign)]
+            built = len(tdefs) == 1 and isinstance(tdefs[0].value, ast.ListComp) and isinstance(tdefs[0].value.generators[0].iter, ast.Name) and tdefs[0].value.generators[0].iter.id in var_names and not tdefs[0].value.generators[0].ifs
+            if not built:
+                continue
+            # the gather result is iterated directly and appended
+            p_ = getattr(c, "_parent", None)
+            while p_ is not None and not isinstance(p_, ast.stmt):
+                p_ = getattr(p_, "_parent", None)
+            gv = p_.targets[0].id if isinstance(p_, ast.Assign) and isinstance(p_.targets[0], ast.Name) else None
+            loops = [n for n in walk_local(amap.node) if isinstance(n, ast.For) and isinstance(n.iter, ast.Name) and n.iter.id == gv]
+            oku = gv is not None and len(loops) == 1 and any(isinstance(x, ast.Call) and isinstance(x.func, ast.Attribute) and x.func.attr == "append" for x in ast.walk(loops[0]))
         rep.add("C10.R2", f"{amap.qname}:unbounded-order", oku, amap.loc(), "unbounded map: tasks built in variation order, results appended by iterating the gather result" if oku else "unbounded map does not build tasks / collect results in variation order")
 
     # ---- R3 ---------------------------------------------------------------------
     smap = [m for m in template_methods(db, "map") if not m.is_async][0]
-    loops = [n for n in walk_local(smap.node) if isinstance(n, ast.For) and isinstance(n.iter, ast.Name) and n.iter.id == "input_variations"]
+    svars = {v for v in db.local_defs(smap) if any(isinstance(d, ast.Assign) and "generate_map_inputs" in src(d.value) for d in db.local_defs(smap).get(v, []))}
+    loops = [n for n in walk_local(smap.node) if isinstance(n, ast.For) and isinstance(n.iter, ast.Name) and n.iter.id in svars]
     ok = len(loops) == 1
     why = "sync map does not iterate the variations directly"
     if ok:
@@ -167,8 +181,9 @@ def run(ctx) -> None:
         ok = len(runs) == 1 and len(apps) == 1 and isinstance(runs[0].args[1] if len(runs[0].args) > 1 else None, ast.Name) and runs[0].args[1].id == lp.target.id
         why = "sync map runs each variation in order and appends its result" if ok else "sync map loop does not run the loop's own variation and append exactly one result"
     rep.add("C10.R3", f"{smap.qname}:iteration-order", ok, smap.loc(), why)
-    idefs = db.local_defs(smap).get("input_variations", []) + db.local_defs(amap).get("input_variations", [])
-    ok = len(idefs) == 2 and all(isinstance(d, ast.Assign) and "list(generate_map_inputs(" in src(d.value) for d in idefs)
+    idefs = [d for m_ in (smap, amap) for v, ds in db.local_defs(m_).items() for d in ds if isinstance(d, ast.Assign) and "generate_map_inputs" in src(d.value)]
+    once = all(len(db.local_defs(m_).get(v, [])) == 1 for m_ in (smap, amap) for v, ds in db.local_defs(m_).items() if any(isinstance(d, ast.Assign) and "generate_map_inputs" in src(d.value) for d in ds))
+    ok = len(idefs) == 2 and once and all("list(generate_map_inputs(" in src(d.value) for d in idefs)
     rep.add("C10.R3", "map:variations-materialised-once", ok, smap.loc(), "variations = list(generate_map_inputs(...)), bound once in each map" if ok else "the list of variations is rebound or not taken from generate_map_inputs")
     for f in (smap, amap, coll):
         for n in walk_local(f.node):
